@@ -67,11 +67,36 @@ pub fn global_seed() -> u64 {
         .unwrap_or(DEFAULT_SEED)
 }
 
-pub fn scratch_root() -> std::path::PathBuf {
-    let base = if std::path::Path::new("/dev/shm").is_dir() {
+pub fn scratch_base() -> std::path::PathBuf {
+    if std::path::Path::new("/dev/shm").is_dir() {
         std::path::PathBuf::from("/dev/shm")
     } else {
         std::env::temp_dir()
-    };
-    base.join(format!("libcnb-verif-{}", std::process::id()))
+    }
+}
+
+/// Per-process scratch directory. Minimisation and replay workers use one fixed location
+/// (serialised by a lock) instead, so that a replayed execution sees exactly the paths the
+/// minimised one saw (code under test may hash or sort absolute paths).
+pub fn scratch_root() -> std::path::PathBuf {
+    if std::env::var_os("VERIF_FIXED_SCRATCH").is_some() {
+        return scratch_base().join("libcnb-verif-replay");
+    }
+    scratch_base().join(format!("libcnb-verif-{}", std::process::id()))
+}
+
+/// Hold an exclusive lock on the fixed replay scratch directory for the life of the process.
+pub fn lock_fixed_scratch() {
+    if std::env::var_os("VERIF_FIXED_SCRATCH").is_none() {
+        return;
+    }
+    let path = scratch_base().join("libcnb-verif-replay.lock");
+    if let Ok(f) = std::fs::OpenOptions::new().create(true).write(true).truncate(false).open(&path) {
+        use std::os::fd::AsRawFd;
+        // SAFETY: flock on a descriptor we own; the descriptor is leaked on purpose.
+        unsafe {
+            libc::flock(f.as_raw_fd(), libc::LOCK_EX);
+        }
+        std::mem::forget(f);
+    }
 }
